@@ -38,6 +38,9 @@ MUTATIONS = [
     {"name": "c13_long_form_uses_rcx", "props": ["C13"], "edits": [(AMD, "const MOV_RAX_OPCODE: [u8; 2] = [0x48, 0xB8];", "const MOV_RAX_OPCODE: [u8; 2] = [0x48, 0xB9];"), (AMD, "const JMP_RAX_OPCODE: [u8; 2] = [0xFF, 0xE0];", "const JMP_RAX_OPCODE: [u8; 2] = [0xFF, 0xE1];")]},
     # ---- C10
     {"name": "c10_stub_ret8", "props": ["C10"], "edits": [(AMD, "        0xC3, // ret", "        0xC2, // ret imm16 (truncated)")]},
+    # ---- C04
+    {"name": "c04_preventer_uses_its_own_lock", "props": ["C04"], "edits": [(INJ, "static LOCK_FUNCTION: NoPoisonMutex<()> = NoPoisonMutex::new(());", "static LOCK_FUNCTION: NoPoisonMutex<()> = NoPoisonMutex::new(());\nstatic LOCK_PREVENT: NoPoisonMutex<()> = NoPoisonMutex::new(());"), (INJ, "    pub fn prevent() -> Preventer {\n        let lock = LOCK_FUNCTION.lock();", "    pub fn prevent() -> Preventer {\n        let lock = LOCK_PREVENT.lock();")]},
+    {"name": "c04_lock_released_before_restoration", "props": ["C04"], "edits": [(INJ, "        while let Some(guard) = self.guards.pop() {\n            drop(guard);\n        }", "        let early: MutexGuard<'static, ()> = unsafe { std::ptr::read(&self._lock) };\n        drop(early);\n        while let Some(guard) = self.guards.pop() {\n            drop(guard);\n        }\n        let relock = LOCK_FUNCTION.lock();\n        unsafe { std::ptr::write(&mut self._lock, relock) };")]},
     # ---- C05
     {"name": "c05_verifier_panics_while_unwinding", "props": ["C05"], "edits": [(VERIFIER, "                if std::thread::panicking() {\n                    return;\n                }\n", "")]},
     {"name": "c05_plain_mutex_poisoned", "props": ["C05", "C04"], "edits": [(INJ, "            Err(poisoned) => {\n                // Swallow the poison and give the guard anyway\n                poisoned.into_inner()\n            }", "            Err(poisoned) => {\n                panic!(\"lock poisoned: {poisoned}\")\n            }")]},
